@@ -50,6 +50,17 @@ def reference(case, params=None):
 
 
 def build_likelihood(case):
+    ll = _build_likelihood(case)
+    return ll
+
+
+def _overwrite(arrs):
+    for a in arrs:
+        if isinstance(a, np.ndarray) and a.size:
+            a[...] = a[::-1] * 3 + 1
+
+
+def _build_likelihood(case):
     model = ToyModel(case['n_mech'], case['n_toy_outputs'])
     ems = [chi_error_model(c) for c in case['ems']]
     outputs = None
@@ -65,6 +76,19 @@ def build_likelihood(case):
     if case.get('flat'):
         obs, times = obs[0], times[0]
         ems = ems[0]
+    if case.get('arrays_overwritten'):
+        # the data are handed over as float arrays that the caller re-uses for
+        # something else afterwards: the likelihood holds the data it was given
+        if case.get('flat'):
+            obs, times = np.array(obs, dtype=float), np.array(times, dtype=float)
+            ll = chi.LogLikelihood(model, ems, obs, times, outputs=outputs)
+            _overwrite([obs, times])
+        else:
+            obs = [np.array(o, dtype=float) for o in obs]
+            times = [np.array(t, dtype=float) for t in times]
+            ll = chi.LogLikelihood(model, ems, obs, times, outputs=outputs)
+            _overwrite(obs + times)
+        return ll
     return chi.LogLikelihood(model, ems, obs, times, outputs=outputs)
 
 
@@ -561,6 +585,17 @@ def build(tier, seed):
                 c = make_case(ems, ts, n_toy, sel, seed, tag='z')
                 c['params'][:2] = psi
                 grids.append(c)
+    # data arrays overwritten by the caller after the likelihood was built
+    for code in codes:
+        for ems, ts, n_toy, sel in (([code], [ms[5]], 1, [0]),
+                                    ([code, 'G'], [ms[5], ms[3]], 2, [0, 1]),
+                                    (['G', code], [ms[8], ms[5]], 2, [0, 1])):
+            c = make_case(ems, ts, n_toy, sel, seed, tag='w')
+            c['arrays_overwritten'] = True
+            grids.append(c)
+        c = make_case([code], [ms[6]], 1, [0], seed, flat=True, tag='w')
+        c['arrays_overwritten'] = True
+        grids.append(c)
     # negative model outputs (change-from-baseline quantities): fine for the additive
     # model, and for the combined model while its total scale stays positive
     for code in ('G', 'CM'):
